@@ -1,8 +1,306 @@
 import EdpVerif.Drv.Common
-namespace Edp.Drv
+import EdpVerif.Impl.PidAlloc
+import EdpVerif.Impl.RefCounter
+/-! Driver requests of property C16 (pid allocator, reference counter).
 
-/-- driver requests of property C16 (stub: nothing handled yet) -/
+Result text of one `allocate()` call: `<id>.<serial>.<creation>` | `err` | `panic`; of one reference `<creation>:<w0>:<w1>:<w2>`.
+
+* `c16seq id0 ser0 cre n`            — n sequential allocations from the given counter position: hash, number of `ok`, last result, final state
+* `c16win id0 ser0 cre from count`   — the results `from .. from+count-1` of that sequential run
+* `c16ops id0 ser0 cre ops`          — sequential mix of `a` (allocate) and `c<N>` (set_creation N)
+* `c16thr id0 ser0 cre setcs lists`  — trace validation at allocation granularity: per-thread result lists observed on real OS
+                                        threads (`;` between threads, `,` between results), `setcs` the values stored by a
+                                        concurrent `set_creation` thread in order (`-` if none). The driver reconstructs a
+                                        schedule of the small-step model that produces exactly these per-thread results, or rejects.
+* `c16trace id0 ser0 cre k tokens`   — replay of an executed step trace recorded by the hook-level scheduler (needs the hook patch)
+* `c16uniq cre setcs lists`          — Spec oracle on the implementation's output: (id, serial) pairwise distinct, creations in force
+* `c16refseq c0 cre n`, `c16refrun c0 cre n`, `c16refthr c0 cre lists`, `c16refuniq cre lists` — the same for references
+-/
+namespace Edp.Drv
+namespace C16
+open Edp.Impl
+
+def nat (s : String) : Except String Nat :=
+  match s.toNat? with
+  | some n => .ok n
+  | none => .error ("bad-nat " ++ s)
+
+def runE (r : Except String String) : String :=
+  match r with
+  | .ok s => s
+  | .error e => "bad-op " ++ e
+
+def mix (h : UInt64) (w : Nat) : UInt64 := (h ^^^ w.toUInt64) * 1099511628211
+def hash0 : UInt64 := 14695981039346656037
+
+/-! ### pids -/
+section Pids
+open PidAlloc
+
+def resText : Res → String
+  | .ok p => s!"{p.id}.{p.serial}.{p.creation}"
+  | .err => "err"
+  | .panic => "panic"
+
+def parseRes (s : String) : Except String Res :=
+  if s == "err" then .ok .err else if s == "panic" then .ok .panic else
+  match s.splitOn "." with
+  | [a, b, c] => do pure (.ok ⟨← nat a, ← nat b, ← nat c⟩)
+  | _ => .error ("bad-res " ++ s)
+
+def hashRes (h : UInt64) : Res → UInt64
+  | .ok p => mix (mix (mix (mix h 0) p.id) p.serial) p.creation
+  | .err => mix h 1
+  | .panic => mix h 2
+
+def isOk : Res → Bool
+  | .ok _ => true
+  | _ => false
+
+def stText (s : Sh) : String := s!"{s.nextId},{s.nextSerial},{if s.poisoned then 1 else 0}"
+
+def seqLoop : Nat → Sh → UInt64 → Nat → Res → Sh × UInt64 × Nat × Res
+  | 0, s, h, k, last => (s, h, k, last)
+  | n + 1, s, h, k, _ =>
+    let x := alloc s
+    seqLoop n x.2 (hashRes h x.1) (if isOk x.1 then k + 1 else k) x.1
+
+def skip : Nat → Sh → Sh
+  | 0, s => s
+  | n + 1, s => skip n (alloc s).2
+
+def window : Nat → Sh → List Res → List Res
+  | 0, _, acc => acc.reverse
+  | n + 1, s, acc => let x := alloc s; window n x.2 (x.1 :: acc)
+
+def parseOps (s : String) : Except String (List Op) :=
+  (s.splitOn ",").mapM fun w =>
+    if w == "a" then .ok Op.alloc
+    else if w.startsWith "c" then do pure (Op.setCreation (← nat (w.drop 1).toString))
+    else .error ("bad-op " ++ w)
+
+def parseLists (s : String) : Except String (List (List Res)) :=
+  (s.splitOn ";").mapM fun th => if th == "-" then .ok [] else (th.splitOn ",").mapM parseRes
+
+def parseNats (s : String) : Except String (List Nat) :=
+  if s == "-" then .ok [] else (s.splitOn ",").mapM nat
+
+/-- run thread `t` until its call has finished (fuel: a call has at most 7 steps) -/
+def finishCall (st : St) (t : Nat) : Nat → Option St
+  | 0 => none
+  | f + 1 =>
+    match step st t with
+    | none => none
+    | some st' => if st'.out.length > st.out.length then some st' else finishCall st' t f
+
+def setc (st : St) (c : Nat) : St := (stepEv st (.setCreation c)).getD st
+
+/-- perform pending `set_creation`s until the creation in force is `target` -/
+def advanceC (st : St) (target : Nat) : List Nat → Option (St × List Nat)
+  | [] => if st.sh.creation == target then some (st, []) else none
+  | c :: rest => if st.sh.creation == target then some (st, c :: rest) else advanceC (setc st c) target rest
+
+def sameKey : Res → Res → Bool
+  | .ok p, .ok q => p.id == q.id && p.serial == q.serial
+  | .err, .err => true
+  | .panic, .panic => true
+  | _, _ => false
+
+/-- index of the first thread whose next observed result is the one the model hands out next -/
+def findThread (want : Res) : Nat → List (List Res) → Option (Nat × Res)
+  | _, [] => none
+  | k, [] :: rest => findThread want (k + 1) rest
+  | k, (hd :: _) :: rest => if sameKey hd want then some (k, hd) else findThread want (k + 1) rest
+
+def dropHead (k : Nat) : List (List Res) → List (List Res)
+  | [] => []
+  | l :: rest => if k == 0 then l.tail :: rest else l :: dropHead (k - 1) rest
+
+def validate : Nat → St → List (List Res) → List Nat → Except String St
+  | 0, st, heads, pend =>
+    if heads.all List.isEmpty then .ok (pend.foldl setc st) else .error "fuel"
+  | f + 1, st, heads, pend =>
+    if heads.all List.isEmpty then .ok (pend.foldl setc st) else
+    -- the lock is free here, so the shared state is the sequential one: the next call to acquire it gets `alloc st.sh`
+    let want := (alloc st.sh).1
+    match findThread want 0 heads with
+    | none => .error ("no-thread-has-next=" ++ resText want)
+    | some (k, hd) =>
+      let adv : Option (St × List Nat) :=
+        match hd with
+        | .ok p => advanceC st p.creation pend
+        | _ => some (st, pend)
+      match adv with
+      | none => .error ("creation-never-in-force=" ++ resText hd)
+      | some (st1, pend1) =>
+        match finishCall st1 k 8 with
+        | none => .error "model-stuck"
+        | some st2 =>
+          if st2.out.getLast? == some (k, hd) then validate f st2 (dropHead k heads) pend1
+          else .error ("model-gives=" ++ (match st2.out.getLast? with | some x => resText x.2 | none => "-") ++ " observed=" ++ resText hd)
+
+/-- replay an executed step trace (hook-level scheduler): tokens `<thread><code>`, code `L` = `lock()` granted and
+acquired, `B` = lock attempt found the mutex busy (the model's thread must be blocked), `s` = one atomic step,
+`c` = the creation load and the return (two model steps, no hook point between them) -/
+def replay (st : St) : List String → Except String St
+  | [] => .ok st
+  | tok :: rest => do
+    let code := tok.back
+    let t ← nat (tok.dropEnd 1).toString
+    let one (st : St) : Except String St :=
+      match step st t with
+      | some st' => .ok st'
+      | none => .error s!"model-blocked-at={tok}"
+    let st' ← match code with
+      | 'B' => match step st t with
+        | none => .ok st
+        | some _ => .error s!"model-not-blocked-at={tok}"
+      | 'L' => do
+        let st' ← one st
+        if st'.lock == some t || st.sh.poisoned then pure st' else .error s!"not-a-lock-step={tok}"
+      | 's' => one st
+      | 'c' => do one (← one st)
+      | _ => .error ("bad-token " ++ tok)
+    replay st' rest
+
+/-- per-thread projection of the model's completion log -/
+def perThread (out : List (Nat × Res)) (k : Nat) : List Res := (out.filter (·.1 == k)).map (·.2)
+
+def allPairs (l : List (Nat × Nat)) : Bool :=
+  match l with
+  | [] => true
+  | x :: rest => !rest.contains x && allPairs rest
+
+end Pids
+
+/-! ### references -/
+section Refs
+open RefCounter
+
+def refText (r : Ref) : String := s!"{r.creation}:{r.w0}:{r.w1}:{r.w2}"
+
+def parseRef (s : String) : Except String Ref :=
+  match s.splitOn ":" with
+  | [c, a, b, d] => do pure ⟨← nat c, ← nat a, ← nat b, ← nat d⟩
+  | _ => .error ("bad-ref " ++ s)
+
+def hashRef (h : UInt64) (r : Ref) : UInt64 := mix (mix (mix (mix h r.creation) r.w0) r.w1) r.w2
+
+def refSeqLoop (c0 cre : Nat) : Nat → Nat → UInt64 → Ref → UInt64 × Ref
+  | 0, _, h, last => (h, last)
+  | n + 1, i, h, _ => let r := seqRef c0 cre i; refSeqLoop c0 cre n (i + 1) (hashRef h r) r
+
+def parseRefLists (s : String) : Except String (List (List Ref)) :=
+  (s.splitOn ";").mapM fun th => if th == "-" then .ok [] else (th.splitOn ",").mapM parseRef
+
+/-- the word thread `k` must obtain next, given its program counter and its next observed reference -/
+def needed (pc : RPc) (hd : Ref) : Option Nat :=
+  match pc with
+  | .idle => some hd.w0
+  | .f1 _ => some hd.w1
+  | .f2 _ _ => some hd.w2
+  | _ => none
+
+def findRefThread (st : RSt) : Nat → List (List Ref) → Option (Nat × Ref)
+  | _, [] => none
+  | k, [] :: rest => findRefThread st (k + 1) rest
+  | k, (hd :: _) :: rest =>
+    if needed (st.pc k) hd == some st.counter then some (k, hd) else findRefThread st (k + 1) rest
+
+def dropRefHead (k : Nat) : List (List Ref) → List (List Ref)
+  | [] => []
+  | l :: rest => if k == 0 then l.tail :: rest else l :: dropRefHead (k - 1) rest
+
+def isF3 : RPc → Bool
+  | .f3 _ _ _ => true
+  | _ => false
+
+/-- every `fetch_add` of the observed run is replayed as one model step of the thread that observed its value -/
+def validateRefs : Nat → RSt → List (List Ref) → Except String RSt
+  | 0, st, heads => if heads.all List.isEmpty then .ok st else .error "fuel"
+  | f + 1, st, heads =>
+    if heads.all List.isEmpty then .ok st else
+    match findRefThread st 0 heads with
+    | none => .error s!"no-thread-wants-counter={st.counter}"
+    | some (k, hd) =>
+      let st1 := RefCounter.step st k
+      if isF3 (st1.pc k) then
+        -- third word obtained: the creation load and the return follow (no other thread can observe the difference)
+        let st2 := RefCounter.step (RefCounter.step st1 k) k
+        if st2.out.getLast? == some (k, hd) then validateRefs f st2 (dropRefHead k heads)
+        else .error ("model-gives=" ++ (match st2.out.getLast? with | some x => refText x.2 | none => "-") ++ " observed=" ++ refText hd)
+      else validateRefs f st1 heads
+
+def allDistinct (l : List Ref) : Bool :=
+  match l with
+  | [] => true
+  | x :: rest => !rest.contains x && allDistinct rest
+
+end Refs
+end C16
+
+open C16 Edp.Impl in
 def handleC16 : List String → Option String
+  | ["c16seq", id0, ser0, cre, n] => some <| runE do
+    let s : PidAlloc.Sh := ⟨← nat id0, ← nat ser0, ← nat cre, false⟩
+    let (s', h, k, last) := seqLoop (← nat n) s hash0 0 .err
+    pure s!"h={h} ok={k} last={resText last} st={stText s'}"
+  | ["c16win", id0, ser0, cre, frm, cnt] => some <| runE do
+    let s : PidAlloc.Sh := ⟨← nat id0, ← nat ser0, ← nat cre, false⟩
+    let rs := window (← nat cnt) (skip (← nat frm) s) []
+    pure (",".intercalate (rs.map resText))
+  | ["c16ops", id0, ser0, cre, ops] => some <| runE do
+    let s : PidAlloc.Sh := ⟨← nat id0, ← nat ser0, ← nat cre, false⟩
+    let q := PidAlloc.seqRun s (← parseOps ops)
+    pure s!"{",".intercalate (q.1.map resText)} st={stText q.2} cre={q.2.creation}"
+  | ["c16thr", id0, ser0, cre, setcs, lists] => some <| runE do
+    let s : PidAlloc.Sh := ⟨← nat id0, ← nat ser0, ← nat cre, false⟩
+    let heads ← parseLists lists
+    let pend ← parseNats setcs
+    let n := heads.foldl (fun a l => a + l.length) 0
+    match validate (n + 1) (PidAlloc.St.init s) heads pend with
+    | .error e => pure ("rejected " ++ e)
+    | .ok st =>
+      -- the reconstructed schedule, run through the small-step model, reproduces every thread's observations
+      let okAll := (List.range heads.length).all fun k => perThread st.out k == heads.getD k []
+      if okAll && st.lock == none then pure s!"admitted n={n} st={stText st.sh} cre={st.sh.creation}"
+      else pure "rejected per-thread-mismatch"
+  | ["c16trace", id0, ser0, cre, nthreads, toks] => some <| runE do
+    let s : PidAlloc.Sh := ⟨← nat id0, ← nat ser0, ← nat cre, false⟩
+    match replay (PidAlloc.St.init s) (toks.splitOn ",") with
+    | .error e => pure ("rejected " ++ e)
+    | .ok st =>
+      let per := (List.range (← nat nthreads)).map fun k => ",".intercalate ((perThread st.out k).map resText)
+      pure s!"{";".intercalate per} st={stText st.sh} lock={match st.lock with | some t => toString t | none => "-"}"
+  | ["c16uniq", cre, setcs, lists] => some <| runE do
+    let heads ← parseLists lists
+    let allowed := (← nat cre) :: (← parseNats setcs)
+    let oks := heads.flatten.filterMap fun r => match r with | .ok p => some p | _ => none
+    if !allPairs (oks.map fun p => (p.id, p.serial)) then pure "FAIL duplicate-id-serial"
+    else if !oks.all (fun p => allowed.contains p.creation) then pure "FAIL creation-never-in-force"
+    else pure "ok"
+  | ["c16refseq", c0, cre, n] => some <| runE do
+    let (h, last) := refSeqLoop (← nat c0) (← nat cre) (← nat n) 0 hash0 default
+    pure s!"h={h} last={refText last}"
+  | ["c16refrun", c0, cre, n] => some <| runE do
+    -- the small-step model itself, one thread, n calls in a row
+    let st := RefCounter.run (RefCounter.RSt.init (← nat c0) (← nat cre)) (List.replicate (5 * (← nat n)) (RefCounter.REv.task 0))
+    pure (",".intercalate (st.out.map fun x => refText x.2))
+  | ["c16refthr", c0, cre, lists] => some <| runE do
+    let heads ← parseRefLists lists
+    let n := heads.foldl (fun a l => a + l.length) 0
+    match validateRefs (3 * n + 1) (RefCounter.RSt.init (← nat c0) (← nat cre)) heads with
+    | .error e => pure ("rejected " ++ e)
+    | .ok st =>
+      let okAll := (List.range heads.length).all fun k =>
+        ((st.out.filter (·.1 == k)).map (·.2)) == heads.getD k []
+      if okAll then pure s!"admitted n={n} counter={st.counter}" else pure "rejected per-thread-mismatch"
+  | ["c16refuniq", cre, lists] => some <| runE do
+    let rs := (← parseRefLists lists).flatten
+    let c ← nat cre
+    if !allDistinct rs then pure "FAIL duplicate-reference"
+    else if !rs.all (fun r => r.creation == c) then pure "FAIL creation-never-in-force"
+    else pure "ok"
   | _ => none
 
 end Edp.Drv
